@@ -134,7 +134,12 @@ static std::string MODE;
 // c11 shapes
 enum { SH_TRUNC, SH_SHORT, SH_MAGICPREFIX, SH_MODEPAIR, SH_WRONGTAG, SH_GARBAGE, SH_RESIGNED, SH_NSHAPES };
 static const char *SHN[] = {"truncated-valid", "short-file", "magic-prefix", "mode-byte-pair", "wrong-tag-body-length", "garbage(seeded sample)", "cut-and-resigned"};
-static std::vector<Base> c11_trunc_bases() { std::vector<Base> v; for (int T : {1, 2, 4}) for (size_t n : {(size_t)5, S, 2 * S + 3}) v.push_back({1 + (T % 3), T % 3, T, n}); return v; }
+static std::vector<Base> c11_trunc_bases() { // "a valid file truncated anywhere": valid = made by the reference AND, independently, by wencry's own encrypt
+  std::vector<Base> v;
+  for (int self = 0; self < 2; self++)
+    for (int T : {1, 2, 4}) for (size_t n : {(size_t)5, S, 2 * S + 3}) { Base b{1 + (T % 3), T % 3, T, n}; b.self = self != 0; v.push_back(b); }
+  return v;
+}
 static std::vector<Base> c11_mode_bases() { std::vector<Base> v; for (int cm = 0; cm < 5; cm++) for (int hm = 0; hm < 3; hm++) v.push_back({cm, hm, 1 + (cm + hm) % 3, (cm * 3 + hm) % 2 ? (size_t)21 : S + 5}); return v; }
 static std::vector<int> border_vals() { return {0, 1, 2, 3, 4, 5, 6, 127, 128, 254, 255}; }
 static std::vector<size_t> wrongtag_bodies() { return {0, 1, 15, 16, S - 16, S, S + 16}; }
